@@ -78,7 +78,11 @@ def real_eval(payload):
             if positive and c["seed"] % 2:
                 # the Cash statistic needs a positive model, not positive data (background-subtracted counts): shift part of the image below 0
                 data = data - 0.6 * float(np.median(data))
-            mask = U.make_mask(rng, N, c["mask"])
+            mask = U.make_mask(rng, N, c["mask"], ["bool", "int", "float"][c["seed"] % 3])
+            if c["loss"] in c07.SQUARES_RMS and (c["seed"] // 3) % 2 == 0:
+                # noiseless pixels (rms exactly 0) are legitimate where a systematic term is added in quadrature: σ = σ_sys there
+                ij = rng.integers(0, N, size=(3, 2))
+                rms[ij[:, 0], ij[:, 1]] = 0.0
             sky = c["sky"] if not positive else "flat"
             Rcls = U.RENDERERS[c["renderer"]]
             loss = getattr(U.L, c["loss"])
@@ -122,7 +126,13 @@ def real_eval(payload):
             if c["kind"] == "single":
                 bare = f.renderer.render_source(params, c["types"][0], suffix=sfx)
             else:
-                bare = f.renderer.render_for_model(params, list(c["types"]), sfx)
+                # independent of the catalogue path: every source rendered on its own through render_source, then summed
+                # (rendering is additive over sources, Props.C08)
+                import pysersic.rendering as RD
+                bare = 0.0
+                for j, t in enumerate(c["types"]):
+                    pj = {p: params[f"{p}_{j}{sfx}"] for p in RD.base_profile_params[t]}
+                    bare = bare + f.renderer.render_source(pj, t, suffix="")
             sky_sfx = sfx if c["kind"] == "single" else ""
             skyv = {k: float(tr[k + sky_sfx]["value"]) for k in ("sky_back", "sky_x_sl", "sky_y_sl") if k + sky_sfx in tr}
             out.append(dict(sites=sites, entries=entries, total=total, requests=requests, data=np.asarray(f.data, dtype=np.float64), rms=np.asarray(f.rms, dtype=np.float64),
